@@ -109,3 +109,41 @@ Proof.
   destruct (walk_complete _ _ _ _ _ _ _ _ Hw He) as [arms Ha]; [reflexivity|discriminate|].
   rewrite Ha. cbn [bind]. eexists; reflexivity.
 Qed.
+
+(* the #[repr] scan: the LAST integer hint of all attributes wins, usize when there is none — so for every way of writing a
+   rustc-accepted #[repr] (rustc rejects two different integer hints) the parameter type is THE integer type of the enum *)
+Lemma last_nonempty_indep {A} (l : list A) e1 e2 : l <> [] -> last l e1 = last l e2.
+Proof.
+  induction l as [|x [|y t] IH]; intro Hne; [congruence|reflexivity|].
+  change (last (y :: t) e1 = last (y :: t) e2). apply IH. discriminate.
+Qed.
+Lemma last_cons {A} (x : A) (l : list A) d : last (x :: l) d = last l x.
+Proof. destruct l as [|y t]; [reflexivity|]. change (last (y :: t) d = last (y :: t) x). apply last_nonempty_indep. discriminate. Qed.
+
+Lemma scan_attr_last : forall hs acc, scan_attr acc hs = last (int_hints hs) acc.
+Proof.
+  induction hs as [|h r IH]; intro acc; [reflexivity|].
+  unfold scan_attr in *. cbn [fold_left]. rewrite IH.
+  destruct h as [x|]; cbn [scan_hint]; [|reflexivity].
+  change (int_hints (HInt x :: r)) with (x :: int_hints r). rewrite last_cons. reflexivity.
+Qed.
+
+Lemma last_app_default {A} (l1 l2 : list A) d : last (l1 ++ l2) d = last l2 (last l1 d).
+Proof.
+  revert d; induction l1 as [|a r IH]; intro d; [reflexivity|].
+  change ((a :: r) ++ l2) with (a :: (r ++ l2)). rewrite !last_cons. apply IH.
+Qed.
+
+Theorem C06_repr_scan_proof : forall attrs,
+  scan_repr attrs = last (int_hints (concat attrs)) RUsize /\
+  (int_hints (concat attrs) = [] -> scan_repr attrs = RUsize) /\
+  (forall r, int_hints (concat attrs) = [r] -> scan_repr attrs = r).
+Proof.
+  assert (G : forall attrs acc, fold_left scan_attr attrs acc = last (int_hints (concat attrs)) acc).
+  { induction attrs as [|hs r IH]; intro acc; [reflexivity|].
+    cbn [fold_left concat]. rewrite IH, scan_attr_last. unfold int_hints. rewrite flat_map_app. fold (int_hints hs). fold (int_hints (concat r)).
+    symmetry. apply last_app_default. }
+  intro attrs. unfold scan_repr. rewrite G. split; [reflexivity|]. split.
+  - intros ->. reflexivity.
+  - intros r ->. reflexivity.
+Qed.
